@@ -166,3 +166,28 @@ contract("esutil.sfile.SFile.open#overwrite", runtime_name="esutil.sfile.SFile.o
          modifies=["self"],
          callee_contracts={"Recfile.__init__": "esutil.recfile.Util.Recfile.__init__#opened", "SFile.read_header": "esutil.sfile.SFile.read_header"},
          props=["C03"], runtime=False)
+
+
+# ------------------------------------------------------------------------------------------------ byte-order-free header dtype (C04)
+contract("esutil.sfile.SFile._remove_byteorder",
+         params=dict(self="obj:SFile{}", descr="lst[tuple[str,str],tuple[str,str,int],tuple[str,str]]"),
+         requires={"type-strings-carry-an-order-character (numpy's descr always does: '<i4', '|S12', '>f8')":
+                   "len(descr[0][1]) >= 2 and len(descr[1][1]) >= 2 and len(descr[2][1]) >= 2"},
+         ensures={"one-entry-per-field-names-and-shapes-kept":
+                  "len(result) == 3 and result[0][0] == descr[0][0] and result[1][0] == descr[1][0] and result[2][0] == descr[2][0]"
+                  " and len(result[0]) == 2 and len(result[1]) == 3 and result[1][2] == descr[1][2]",
+                  "exactly-the-order-character-is-dropped: the rest of the type string (kind letter and the whole width) is kept":
+                  " and ".join("result[%d][1] == descr[%d][1][1:] and len(result[%d][1]) == len(descr[%d][1]) - 1" % (i, i, i, i) for i in range(3))},
+         props=["C04"], runtime=False)
+
+contract("esutil.sfile.SFile._make_header#text", runtime_name="esutil.sfile.SFile._make_header",
+         params=dict(self="obj:SFile{_delim:const:';'}", data="sstruct[a:int,b:int]", header=_H1),
+         ensures={
+             "user-keys-kept-reserved-keys-dropped": "result['user'] == header['user'] and '_size' not in result and '_NROWS' not in result",
+             "the-delimiter-of-the-handle-is-recorded (a user key _delim does not override it)": "result['_DELIM'] == ';'",
+             "dtype-recorded-without-byte-order: each field keeps its name and loses exactly the order character of its type string":
+                 "len(result['_DTYPE']) == 2 and result['_DTYPE'][0][0] == 'a' and result['_DTYPE'][1][0] == 'b'"
+                 " and result['_DTYPE'][0][1] == field_type(data, 'a')[1:] and result['_DTYPE'][1][1] == field_type(data, 'b')[1:]",
+         },
+         inline_calls=["esutil.sfile.SFile._remove_byteorder"],
+         props=["C04"], runtime=False)
